@@ -20,7 +20,7 @@ import (
 
 func init() {
 	Register(&Property{ID: "C16", Run: runC16,
-		Rule: "the real memory, file (on the simulated disk) and SQL (sqlite3) stores through their public factories, 1-3 sessions sharing one directory/database, 5-80 operations drawn from set/incr of either counter, save, save-and-increment (ascending numbers per epoch; bytes incl. SOH, newline, comma, NUL-free binary, empty, 64 KB), get/iterate over arbitrary ranges (empty, inverted, beyond the end; callbacks aborting at the i-th message), refresh, reset, close-and-reopen through a fresh factory, clock advances; every return value compared with the reference model; sessions that differ in exactly one part of their id; SQL: one statement refused inside Refresh or Reset (the operation reports the error and changes nothing). Non-trivial: at least one save, one ranged read returning data and one of refresh/reopen/reset; distinct: canonical trace hash"})
+		Rule: "the real memory, file (on the simulated disk) and SQL (sqlite3) stores through their public factories, 1-3 sessions sharing one directory/database, 5-80 operations drawn from set/incr of either counter, save, save-and-increment (ascending numbers per epoch; bytes incl. SOH, newline, comma, NUL-free binary, empty, 64 KB), get/iterate over arbitrary ranges (empty, inverted, beyond the end; callbacks aborting at the i-th message), refresh, reset, close-and-reopen through a fresh factory, clock advances; every return value compared with the reference model; sessions that differ in exactly one part of their id (each optional part empty in all of them in a third of the runs); SQL: one statement refused inside Refresh or Reset (the operation reports the error and changes nothing). Non-trivial: at least one save, one ranged read returning data and one of refresh/reopen/reset; distinct: canonical trace hash"})
 }
 
 type storeModel struct {
